@@ -35,6 +35,8 @@ FAILS = [  # (name, object selector, attr, failing value, direct?)  direct: the 
     ("storage fixed_nb_of_instances too small", "st0", "fixed_nb_of_instances", (1, "dimensionless"), True),
     ("base_storage_need too small for deletions", "st0", "base_storage_need", (0, "TB"), True),
     ("job deletes more than stored", "job0", "data_stored", (-900, "GB"), False),
+    # an input with two raising children (available ram / available compute per instance): only the ram rule fails
+    ("utilization rate too low for the base ram consumption", "srv0", "server_utilization_rate", (0.001, "dimensionless"), True),
 ]
 FOLLOW_UPS = [("job0", "ram_needed", (80, "MB")), ("srv0", "power", (350, "W")), ("st0", "storage_capacity", (3, "TB")), ("net0", "bandwidth_energy_intensity", (0.07, "kWh/GB"))]
 
@@ -132,7 +134,7 @@ def run(tier, seed, procs=16):
             if (fname, re_, r["status"]) in KNOWN_D10: sig = "D10"
         viol.append({"signature": sig, "what": f"C15 {r['case']}: {r['status']} {r['diff'][:6]}", "input": {"history": r["case"]}})
     return {"evaluations": len(res), "distinct_nontrivial": len(nontrivial),
-            "rule": "one case = (failing edit among 7 raising points, re-assignment of the same previous object | a fresh equal value, one or two failures before recovery, one further valid edit); "
+            "rule": "one case = (failing edit among 8 raising points, re-assignment of the same previous object | a fresh equal value, one or two failures before recovery, one further valid edit); "
                     "model after recovery vs model before the failure (values, inputs, graph links), then vs a system built from the final inputs",
             "samples": samples, "violations": viol, "exhaustive": False,
             "bound": f"7 failure points x 2 re-assignment styles x {4 if tier == 'thorough' else 2} follow-up edits x (once | twice)"}
